@@ -13,21 +13,33 @@
 
    Proved (all exponents > 0, all centres, all Cartesian powers):
      gint3_prod                   F = f(x) g(y) h(z)  ->  gint3 F (If * Ig * Ih)
-     gint3_scal/plus/minus/ext    linearity
+     gint3_scal/plus/minus/ext/unique/fsum    linearity, uniqueness of the value
+   PRIMITIVES  phi_a(x,y,z) = (x-A_x)^{a_x} (y-A_y)^{a_y} (z-A_z)^{a_z} exp(-alpha |r-A|^2)   ([cprim], [gprim]):
      mom_prim_3d_integral         iterated integral of (r-C)^o phi_a phi_b = mom_prim RK ... (CoreBlockP.v)
      overlap_prim_3d_integral     iterated integral of phi_a phi_b          = ovl_prim RK ... (CoreBlockP.v)
-     deriv_1d_integral            int phi_a(x) d^k/dx^k phi_b(x) dx         = D1 RK ... k i j   (every k)
+     deriv_1d_integral            int phi_a(x) d^k/dx^k phi_b(x) dx         = D1 RK ... k i j   (EVERY k)
                                   (D1 = iterop (Bop beta) k Sfun, the spec of C02_diffop_is_derivative_of_right)
-     moment1_1d_integral          int x phi_a phi_b dx                      = M1o RK ...
-     dprim_3d_integral            iterated integral of phi_a d^o phi_b      = dprim RK o ...     (every order o)
+     moment1_1d_integral          int phi_a x phi_b dx                      = M1o RK ...
+     dprim_3d_integral            iterated integral of phi_a d^o phi_b      = dprim RK o ...     (EVERY order o)
      kinetic_prim_3d_integral     iterated integral of phi_a (-1/2 Laplacian phi_b) = kin_prim RK ...
      momentum_prim_3d_integral    iterated integral of phi_a d/dx_i phi_b   = mom_{x,y,z}_prim RK ...
      angmom_prim_3d_integral      iterated integral of phi_a (r x grad)_i phi_b = ang_{x,y,z}_prim RK ...
-   where phi_a(x,y,z) = (x-A_x)^{a_x} (y-A_y)^{a_y} (z-A_z)^{a_z} exp(-alpha |r-A|^2)  ([cprim]),
-   the derivatives are Coquelicot's [Derive_n] of the honest function, and RK is the instance of the
-   number interface at the real numbers (Proofs/ScreeningP.v: real sqrt, exp, PI) used by
-   Proofs/CoreNormP.v.  The right-hand sides are literally the Gallina definitions of the block
-   theorems (mm_block_correct, overlap_block_correct, kinetic_block_correct, ...), at F := R.
+   BLOCK ENTRIES OF THE MODELS  chi = contracted Cartesian function [cfun] = sum_k d_k N_k phi_k  (N_k = norm_prim,
+   the primitive norm; the contraction norm of the assembled level is a constant factor applied afterwards):
+     overlap_block_is_integral    overlap_block RK sa sb [ma][ia][mb][ib]  = iterated integral of chi_a chi_b
+     mm_block_is_integral         mm_block ... [d][ma][ia][mb][ib]         = ... of (r-C)^{o_d} chi_a chi_b
+     diffop_block_is_integral     diffop_block ... [d][..]                 = ... of chi_a d^{o_d} chi_b   (every order)
+     kinetic_block_is_integral    kinetic_block RK sa sb [..]              = ... of chi_a (-1/2 Laplacian) chi_b
+     momentum_block_is_integral   momentum_block_re [..][i]                = ... of chi_a d/dx_i chi_b
+     angmom_block_is_integral     angmom_block_re [..][i]                  = ... of chi_a (r x grad)_i chi_b
+     (pd3_cfun: every mixed partial derivative of chi is the contraction of those of the primitives —
+      linearity of Derive_n over the finite sum, proved for these smooth functions)
+   The derivatives are Coquelicot's [Derive_n] of the honest functions ([pd3], [lap3]); RK is the
+   instance of the number interface at the real numbers (Proofs/ScreeningP.v: real sqrt, exp, PI)
+   used by Proofs/CoreNormP.v.  The right-hand sides are literally the Gallina definitions of the
+   block theorems (mm_block_correct, overlap_block_correct, kinetic_block_correct, ...) and the model
+   functions themselves, at F := R.  With KAB_closed_form and norm_prim_self_overlap of CoreNormP.v
+   ([normalised_primitive] below) the normalisation is the textbook one.
    Assumptions: the classical real numbers of the standard library only. *)
 From Coq Require Import Reals Lra Lia List.
 From Coquelicot Require Import Coquelicot.
@@ -45,6 +57,14 @@ Definition gint3 (F : R -> R -> R -> R) (l : R) : Prop :=
     (forall x y, gint (fun z => F x y z) (Iz x y)) /\
     (forall x, gint (fun y => Iz x y) (Iyz x)) /\
     gint Iyz l.
+
+Lemma gint3_def (F : R -> R -> R -> R) (l : R) :
+  gint3 F l <->
+  exists (Iz : R -> R -> R) (Iyz : R -> R),
+    (forall x y, gint (fun z => F x y z) (Iz x y)) /\
+    (forall x, gint (fun y => Iz x y) (Iyz x)) /\
+    gint Iyz l.
+Proof. split; intro H; exact H. Qed.
 
 Lemma gint3_ext (F G : R -> R -> R -> R) (l l' : R) :
   (forall x y z, F x y z = G x y z) -> l = l' -> gint3 F l -> gint3 G l'.
@@ -147,7 +167,7 @@ Proof.
 Qed.
 
 (* the primitive of a shell *)
-Definition sprim (s : shell R) (al : R) (c : Shell.comp) : R -> R -> R -> R :=
+Definition gprim (s : shell R) (al : R) (c : Shell.comp) : R -> R -> R -> R :=
   cprim al (s_x s) (s_y s) (s_z s) c.
 
 (* one axis of the spec: prefactor x T1, as the honest one-dimensional integral *)
@@ -183,7 +203,7 @@ Qed.
 Theorem mom_prim_3d_integral (Cx Cy Cz : R) (o : Shell.comp) (sa sb : shell R) (ca cb : Shell.comp)
         (al be : R) : 0 < al -> 0 < be ->
   gint3 (fun x y z => (x - Cx) ^ cx o * (y - Cy) ^ cy o * (z - Cz) ^ cz o
-                      * sprim sa al ca x y z * sprim sb be cb x y z)
+                      * gprim sa al ca x y z * gprim sb be cb x y z)
         (mom_prim RK Cx Cy Cz o sa sb ca cb al be).
 Proof.
   intros Ha Hb.
@@ -191,13 +211,13 @@ Proof.
   pose proof (base_T1_integral al be (s_y sa) (s_y sb) Cy (cy o) (cy ca) (cy cb) Ha Hb) as Hy.
   pose proof (base_T1_integral al be (s_z sa) (s_z sb) Cz (cz o) (cz ca) (cz cb) Ha Hb) as Hz.
   refine (gint3_ext _ _ _ _ _ _ (gint3_prod _ _ _ _ _ _ Hx Hy Hz)); [intros x y z|].
-  - unfold sprim. rewrite !cprim_split. ring.
+  - unfold gprim. rewrite !cprim_split. ring.
   - unfold mom_prim, KAB. change (fmul RK) with Rmult. ring.
 Qed.
 
 Theorem overlap_prim_3d_integral (sa sb : shell R) (ca cb : Shell.comp) (al be : R) :
   0 < al -> 0 < be ->
-  gint3 (fun x y z => sprim sa al ca x y z * sprim sb be cb x y z) (ovl_prim RK sa sb ca cb al be).
+  gint3 (fun x y z => gprim sa al ca x y z * gprim sb be cb x y z) (ovl_prim RK sa sb ca cb al be).
 Proof.
   intros Ha Hb.
   refine (gint3_ext _ _ _ _ _ eq_refl
@@ -296,7 +316,7 @@ Qed.
 (* every differential-operator primitive: iterated integral of phi_a d^o phi_b = dprim of CoreDiffP.v *)
 Theorem dprim_3d_integral (o : Shell.comp) (sa sb : shell R) (ca cb : Shell.comp) (al be : R) :
   0 < al -> 0 < be ->
-  gint3 (fun x y z => sprim sa al ca x y z * pd3 (cx o) (cy o) (cz o) (sprim sb be cb) x y z)
+  gint3 (fun x y z => gprim sa al ca x y z * pd3 (cx o) (cy o) (cz o) (gprim sb be cb) x y z)
         (dprim RK o sa sb ca cb al be).
 Proof.
   intros Ha Hb.
@@ -304,7 +324,7 @@ Proof.
   pose proof (deriv_1d_integral al be (s_y sa) (s_y sb) (cy o) (cy ca) (cy cb) Ha Hb) as Hy.
   pose proof (deriv_1d_integral al be (s_z sa) (s_z sb) (cz o) (cz ca) (cz cb) Ha Hb) as Hz.
   refine (gint3_ext _ _ _ _ _ eq_refl (gint3_prod _ _ _ _ _ _ Hx Hy Hz)).
-  intros x y z. unfold sprim. rewrite pd3_cprim, cprim_split. ring.
+  intros x y z. unfold gprim. rewrite pd3_cprim, cprim_split. ring.
 Qed.
 
 (* Laplacian *)
@@ -314,7 +334,7 @@ Definition lap3 (G : R -> R -> R -> R) (x y z : R) : R :=
 (* kinetic energy: iterated integral of phi_a (-1/2 Laplacian) phi_b = kin_prim of CoreDiffP.v *)
 Theorem kinetic_prim_3d_integral (sa sb : shell R) (ca cb : Shell.comp) (al be : R) :
   0 < al -> 0 < be ->
-  gint3 (fun x y z => sprim sa al ca x y z * (- (1 / 2) * lap3 (sprim sb be cb) x y z))
+  gint3 (fun x y z => gprim sa al ca x y z * (- (1 / 2) * lap3 (gprim sb be cb) x y z))
         (kin_prim RK sa sb ca cb al be).
 Proof.
   intros Ha Hb.
@@ -333,11 +353,11 @@ Qed.
 (* momentum (the real matrix R of the value -i R): iterated integral of phi_a d/dx_i phi_b *)
 Theorem momentum_prim_3d_integral (sa sb : shell R) (ca cb : Shell.comp) (al be : R) :
   0 < al -> 0 < be ->
-  gint3 (fun x y z => sprim sa al ca x y z * pd3 1 0 0 (sprim sb be cb) x y z)
+  gint3 (fun x y z => gprim sa al ca x y z * pd3 1 0 0 (gprim sb be cb) x y z)
         (mom_x_prim RK sa sb ca cb al be) /\
-  gint3 (fun x y z => sprim sa al ca x y z * pd3 0 1 0 (sprim sb be cb) x y z)
+  gint3 (fun x y z => gprim sa al ca x y z * pd3 0 1 0 (gprim sb be cb) x y z)
         (mom_y_prim RK sa sb ca cb al be) /\
-  gint3 (fun x y z => sprim sa al ca x y z * pd3 0 0 1 (sprim sb be cb) x y z)
+  gint3 (fun x y z => gprim sa al ca x y z * pd3 0 0 1 (gprim sb be cb) x y z)
         (mom_z_prim RK sa sb ca cb al be).
 Proof.
   intros Ha Hb. split; [|split].
@@ -350,24 +370,24 @@ Qed.
    iterated integral of phi_a (r x grad)_i phi_b = ang_{x,y,z}_prim of CoreDiffP.v *)
 Lemma ang_term (sa sb : shell R) (ca cb : Shell.comp) (al be : R) : 0 < al -> 0 < be ->
   (* y d/dz, z d/dy *)
-  gint3 (fun x y z => sprim sa al ca x y z * (y * pd3 0 0 1 (sprim sb be cb) x y z))
+  gint3 (fun x y z => gprim sa al ca x y z * (y * pd3 0 0 1 (gprim sb be cb) x y z))
         (S1 RK (s_x sa) (s_x sb) al be (cx ca) (cx cb) * M1o RK (s_y sa) (s_y sb) al be (cy ca) (cy cb)
          * D1 RK (s_z sa) (s_z sb) al be 1 (cz ca) (cz cb)) /\
-  gint3 (fun x y z => sprim sa al ca x y z * (z * pd3 0 1 0 (sprim sb be cb) x y z))
+  gint3 (fun x y z => gprim sa al ca x y z * (z * pd3 0 1 0 (gprim sb be cb) x y z))
         (S1 RK (s_x sa) (s_x sb) al be (cx ca) (cx cb) * D1 RK (s_y sa) (s_y sb) al be 1 (cy ca) (cy cb)
          * M1o RK (s_z sa) (s_z sb) al be (cz ca) (cz cb)) /\
   (* z d/dx, x d/dz *)
-  gint3 (fun x y z => sprim sa al ca x y z * (z * pd3 1 0 0 (sprim sb be cb) x y z))
+  gint3 (fun x y z => gprim sa al ca x y z * (z * pd3 1 0 0 (gprim sb be cb) x y z))
         (D1 RK (s_x sa) (s_x sb) al be 1 (cx ca) (cx cb) * S1 RK (s_y sa) (s_y sb) al be (cy ca) (cy cb)
          * M1o RK (s_z sa) (s_z sb) al be (cz ca) (cz cb)) /\
-  gint3 (fun x y z => sprim sa al ca x y z * (x * pd3 0 0 1 (sprim sb be cb) x y z))
+  gint3 (fun x y z => gprim sa al ca x y z * (x * pd3 0 0 1 (gprim sb be cb) x y z))
         (M1o RK (s_x sa) (s_x sb) al be (cx ca) (cx cb) * S1 RK (s_y sa) (s_y sb) al be (cy ca) (cy cb)
          * D1 RK (s_z sa) (s_z sb) al be 1 (cz ca) (cz cb)) /\
   (* x d/dy, y d/dx *)
-  gint3 (fun x y z => sprim sa al ca x y z * (x * pd3 0 1 0 (sprim sb be cb) x y z))
+  gint3 (fun x y z => gprim sa al ca x y z * (x * pd3 0 1 0 (gprim sb be cb) x y z))
         (M1o RK (s_x sa) (s_x sb) al be (cx ca) (cx cb) * D1 RK (s_y sa) (s_y sb) al be 1 (cy ca) (cy cb)
          * S1 RK (s_z sa) (s_z sb) al be (cz ca) (cz cb)) /\
-  gint3 (fun x y z => sprim sa al ca x y z * (y * pd3 1 0 0 (sprim sb be cb) x y z))
+  gint3 (fun x y z => gprim sa al ca x y z * (y * pd3 1 0 0 (gprim sb be cb) x y z))
         (D1 RK (s_x sa) (s_x sb) al be 1 (cx ca) (cx cb) * M1o RK (s_y sa) (s_y sb) al be (cy ca) (cy cb)
          * S1 RK (s_z sa) (s_z sb) al be (cz ca) (cz cb)).
 Proof.
@@ -377,29 +397,29 @@ Proof.
   pose proof (fun A B i j => moment1_1d_integral al be A B i j Ha Hb) as HM.
   repeat split.
   - refine (gint3_ext _ _ _ _ _ eq_refl (gint3_prod _ _ _ _ _ _ (HS _ _ _ _) (HM _ _ _ _) (HD _ _ _ _))).
-    intros x y z. unfold sprim. rewrite pd3_cprim, cprim_split. cbn [Derive_n]. ring.
+    intros x y z. unfold gprim. rewrite pd3_cprim, cprim_split. cbn [Derive_n]. ring.
   - refine (gint3_ext _ _ _ _ _ eq_refl (gint3_prod _ _ _ _ _ _ (HS _ _ _ _) (HD _ _ _ _) (HM _ _ _ _))).
-    intros x y z. unfold sprim. rewrite pd3_cprim, cprim_split. cbn [Derive_n]. ring.
+    intros x y z. unfold gprim. rewrite pd3_cprim, cprim_split. cbn [Derive_n]. ring.
   - refine (gint3_ext _ _ _ _ _ eq_refl (gint3_prod _ _ _ _ _ _ (HD _ _ _ _) (HS _ _ _ _) (HM _ _ _ _))).
-    intros x y z. unfold sprim. rewrite pd3_cprim, cprim_split. cbn [Derive_n]. ring.
+    intros x y z. unfold gprim. rewrite pd3_cprim, cprim_split. cbn [Derive_n]. ring.
   - refine (gint3_ext _ _ _ _ _ eq_refl (gint3_prod _ _ _ _ _ _ (HM _ _ _ _) (HS _ _ _ _) (HD _ _ _ _))).
-    intros x y z. unfold sprim. rewrite pd3_cprim, cprim_split. cbn [Derive_n]. ring.
+    intros x y z. unfold gprim. rewrite pd3_cprim, cprim_split. cbn [Derive_n]. ring.
   - refine (gint3_ext _ _ _ _ _ eq_refl (gint3_prod _ _ _ _ _ _ (HM _ _ _ _) (HD _ _ _ _) (HS _ _ _ _))).
-    intros x y z. unfold sprim. rewrite pd3_cprim, cprim_split. cbn [Derive_n]. ring.
+    intros x y z. unfold gprim. rewrite pd3_cprim, cprim_split. cbn [Derive_n]. ring.
   - refine (gint3_ext _ _ _ _ _ eq_refl (gint3_prod _ _ _ _ _ _ (HD _ _ _ _) (HM _ _ _ _) (HS _ _ _ _))).
-    intros x y z. unfold sprim. rewrite pd3_cprim, cprim_split. cbn [Derive_n]. ring.
+    intros x y z. unfold gprim. rewrite pd3_cprim, cprim_split. cbn [Derive_n]. ring.
 Qed.
 
 Theorem angmom_prim_3d_integral (sa sb : shell R) (ca cb : Shell.comp) (al be : R) :
   0 < al -> 0 < be ->
-  gint3 (fun x y z => sprim sa al ca x y z
-                      * (y * pd3 0 0 1 (sprim sb be cb) x y z - z * pd3 0 1 0 (sprim sb be cb) x y z))
+  gint3 (fun x y z => gprim sa al ca x y z
+                      * (y * pd3 0 0 1 (gprim sb be cb) x y z - z * pd3 0 1 0 (gprim sb be cb) x y z))
         (ang_x_prim RK sa sb ca cb al be) /\
-  gint3 (fun x y z => sprim sa al ca x y z
-                      * (z * pd3 1 0 0 (sprim sb be cb) x y z - x * pd3 0 0 1 (sprim sb be cb) x y z))
+  gint3 (fun x y z => gprim sa al ca x y z
+                      * (z * pd3 1 0 0 (gprim sb be cb) x y z - x * pd3 0 0 1 (gprim sb be cb) x y z))
         (ang_y_prim RK sa sb ca cb al be) /\
-  gint3 (fun x y z => sprim sa al ca x y z
-                      * (x * pd3 0 1 0 (sprim sb be cb) x y z - y * pd3 1 0 0 (sprim sb be cb) x y z))
+  gint3 (fun x y z => gprim sa al ca x y z
+                      * (x * pd3 0 1 0 (gprim sb be cb) x y z - y * pd3 1 0 0 (gprim sb be cb) x y z))
         (ang_z_prim RK sa sb ca cb al be).
 Proof.
   intros Ha Hb. destruct (ang_term sa sb ca cb al be Ha Hb) as [X1 [X2 [Y1 [Y2 [Z1 Z2]]]]].
@@ -443,7 +463,7 @@ Definition cw (s : shell R) (m : nat) (c : Shell.comp) (k : nat) : R :=
 
 (* the contracted, normalised Cartesian basis function: segment m, component c of shell s *)
 Definition cfun (s : shell R) (m : nat) (c : Shell.comp) (x y z : R) : R :=
-  fsumR (Tables.mk (length (s_exps s)) (fun k => cw s m c k * sprim s (nth k (s_exps s) 0) c x y z)).
+  fsumR (Tables.mk (length (s_exps s)) (fun k => cw s m c k * gprim s (nth k (s_exps s) 0) c x y z)).
 
 Definition pos_exps3 (s : shell R) : Prop := forall a, In a (s_exps s) -> 0 < a.
 
@@ -479,11 +499,11 @@ Lemma cfun_product (sa sb : shell R) (ca cb : Shell.comp) (ma mb : nat) (w : R) 
   = fsumR (Tables.mk (length (s_exps sa)) (fun ka =>
       fsumR (Tables.mk (length (s_exps sb)) (fun kb =>
         cw sa ma ca ka * cw sb mb cb kb
-        * (w * sprim sa (nth ka (s_exps sa) 0) ca x y z * sprim sb (nth kb (s_exps sb) 0) cb x y z))))).
+        * (w * gprim sa (nth ka (s_exps sa) 0) ca x y z * gprim sb (nth kb (s_exps sb) 0) cb x y z))))).
 Proof.
   unfold cfun.
-  set (fa := fun ka => cw sa ma ca ka * sprim sa (nth ka (s_exps sa) 0) ca x y z).
-  set (fb := fun kb => cw sb mb cb kb * sprim sb (nth kb (s_exps sb) 0) cb x y z).
+  set (fa := fun ka => cw sa ma ca ka * gprim sa (nth ka (s_exps sa) 0) ca x y z).
+  set (fb := fun kb => cw sb mb cb kb * gprim sb (nth kb (s_exps sb) 0) cb x y z).
   rewrite Rmult_assoc.
   change (w * (fsumR (Tables.mk (length (s_exps sa)) fa) * fsumR (Tables.mk (length (s_exps sb)) fb)))
     with (fmul RK w (fmul RK (fsumR (Tables.mk (length (s_exps sa)) fa)) (fsumR (Tables.mk (length (s_exps sb)) fb)))).
@@ -517,7 +537,7 @@ Proof.
   fold ca cb.
   refine (gint3_ext _ _ _ _ _ eq_refl
             (contracted_integral sa sb ca cb ma mb
-               (fun al be x y z => 1 * sprim sa al ca x y z * sprim sb be cb x y z) _ _)).
+               (fun al be x y z => 1 * gprim sa al ca x y z * gprim sb be cb x y z) _ _)).
   - intros x y z. cbv beta. rewrite <- cfun_product. ring.
   - intros al be Ha Hb.
     refine (gint3_ext _ _ _ _ _ eq_refl (overlap_prim_3d_integral sa sb ca cb al be (Pa _ Ha) (Pb _ Hb))).
@@ -539,7 +559,7 @@ Proof.
   refine (gint3_ext _ _ _ _ _ eq_refl
             (contracted_integral sa sb ca cb ma mb
                (fun al be x y z => ((x - Cx) ^ cx o * (y - Cy) ^ cy o * (z - Cz) ^ cz o)
-                                   * sprim sa al ca x y z * sprim sb be cb x y z) _ _)).
+                                   * gprim sa al ca x y z * gprim sb be cb x y z) _ _)).
   - intros x y z. cbv beta. now rewrite <- cfun_product.
   - intros al be Ha Hb.
     exact (mom_prim_3d_integral Cx Cy Cz o sa sb ca cb al be (Pa _ Ha) (Pb _ Hb)).
@@ -604,7 +624,7 @@ Proof. intro H. apply fsum_mk_ext. intros i _. apply H. Qed.
 Theorem pd3_cfun (s : shell R) (m : nat) (c : Shell.comp) (ox oy oz : nat) (x y z : R) :
   pd3 ox oy oz (cfun s m c) x y z
   = fsumR (Tables.mk (length (s_exps s)) (fun k =>
-      cw s m c k * pd3 ox oy oz (sprim s (nth k (s_exps s) 0) c) x y z)).
+      cw s m c k * pd3 ox oy oz (gprim s (nth k (s_exps s) 0) c) x y z)).
 Proof.
   set (n := length (s_exps s)).
   set (gx := fun k => cg1 (nth k (s_exps s) 0) (s_x s) (cx c)).
@@ -612,7 +632,7 @@ Proof.
   set (gz := fun k => cg1 (nth k (s_exps s) 0) (s_z s) (cz c)).
   transitivity (fsumR (Tables.mk n (fun k => cw s m c k *
                   (Derive_n (gx k) ox x * Derive_n (gy k) oy y * Derive_n (gz k) oz z)))).
-  2:{ apply fsumR_ext. intro k. unfold sprim. now rewrite pd3_cprim. }
+  2:{ apply fsumR_ext. intro k. unfold gprim. now rewrite pd3_cprim. }
   unfold pd3.
   (* z *)
   assert (Ez : forall x' y', Derive_n (fun z' => cfun s m c x' y' z') oz z
@@ -622,7 +642,7 @@ Proof.
     - rewrite (Derive_n_fsum n (cw s m c) (fun k z' => gz k z' * (gx k x' * gy k y'))).
       + apply fsumR_ext. intro k. rewrite Derive_n_scal_r. ring.
       + intro k. apply smooth_scal_r, smooth_cg1.
-    - intro z'. unfold cfun. apply fsumR_ext. intro k. unfold sprim. rewrite cprim_split. unfold gx, gy, gz. ring. }
+    - intro z'. unfold cfun. apply fsumR_ext. intro k. unfold gprim. rewrite cprim_split. unfold gx, gy, gz. ring. }
   (* y *)
   assert (Ey : forall x', Derive_n (fun y' => Derive_n (fun z' => cfun s m c x' y' z') oz z) oy y
                 = fsumR (Tables.mk n (fun k => cw s m c k * (gx k x' * Derive_n (gy k) oy y * Derive_n (gz k) oz z)))).
@@ -656,16 +676,16 @@ Theorem contracted_op_integral (sa sb : shell R) (ca cb : Shell.comp) (ma mb : n
         (Lop : (R -> R -> R -> R) -> R -> R -> R -> R) (prim : R -> R -> R) :
   (forall x y z, Lop (cfun sb mb cb) x y z
                  = fsumR (Tables.mk (length (s_exps sb)) (fun kb =>
-                     cw sb mb cb kb * Lop (sprim sb (nth kb (s_exps sb) 0) cb) x y z))) ->
+                     cw sb mb cb kb * Lop (gprim sb (nth kb (s_exps sb) 0) cb) x y z))) ->
   (forall al be, In al (s_exps sa) -> In be (s_exps sb) ->
-     gint3 (fun x y z => sprim sa al ca x y z * Lop (sprim sb be cb) x y z) (prim al be)) ->
+     gint3 (fun x y z => gprim sa al ca x y z * Lop (gprim sb be cb) x y z) (prim al be)) ->
   gint3 (fun x y z => cfun sa ma ca x y z * Lop (cfun sb mb cb) x y z)
         (contracted RK sa sb ca cb ma mb prim).
 Proof.
   intros Hlin H.
   refine (gint3_ext _ _ _ _ _ eq_refl
             (contracted_integral sa sb ca cb ma mb
-               (fun al be x y z => sprim sa al ca x y z * Lop (sprim sb be cb) x y z) prim H)).
+               (fun al be x y z => gprim sa al ca x y z * Lop (gprim sb be cb) x y z) prim H)).
   intros x y z. cbv beta. rewrite Hlin. unfold cfun at 1. rewrite fsumR_prod.
   apply fsumR_ext. intro ka. apply fsumR_ext. intro kb. ring.
 Qed.
@@ -717,4 +737,110 @@ Proof.
     change (fmul RK) with Rmult. change (fadd RK) with Rplus. ring.
   - intros al be Ha Hb. exact (kinetic_prim_3d_integral sa sb ca cb al be (Pa _ Ha) (Pb _ Hb)).
 Qed.
+(* momentum: the three components of the real matrix R (value -i R) *)
+Theorem momentum_block_is_integral :
+  let e := get4 [] ma ia mb ib (momentum_block_re RK sa sb) in
+  gint3 (fun x y z => cfun sa ma ca x y z * pd3 1 0 0 (cfun sb mb cb) x y z) (nth 0 e 0) /\
+  gint3 (fun x y z => cfun sa ma ca x y z * pd3 0 1 0 (cfun sb mb cb) x y z) (nth 1 e 0) /\
+  gint3 (fun x y z => cfun sa ma ca x y z * pd3 0 0 1 (cfun sb mb cb) x y z) (nth 2 e 0).
+Proof.
+  cbv zeta.
+  rewrite (momentum_block_correct RK RK_field fapx_id_R two_neq_0_R sa sb ma ia mb ib Wa Wb
+             (exps_ok_pos_R sa sb Pa Pb) Hma Hia Hmb Hib).
+  cbv zeta. fold ca cb. cbn [nth].
+  repeat split.
+  - apply (contracted_op_integral sa sb ca cb ma mb (pd3 1 0 0)); [intros; apply pd3_cfun|].
+    intros al be Ha Hb. exact (proj1 (momentum_prim_3d_integral sa sb ca cb al be (Pa _ Ha) (Pb _ Hb))).
+  - apply (contracted_op_integral sa sb ca cb ma mb (pd3 0 1 0)); [intros; apply pd3_cfun|].
+    intros al be Ha Hb. exact (proj1 (proj2 (momentum_prim_3d_integral sa sb ca cb al be (Pa _ Ha) (Pb _ Hb)))).
+  - apply (contracted_op_integral sa sb ca cb ma mb (pd3 0 0 1)); [intros; apply pd3_cfun|].
+    intros al be Ha Hb. exact (proj2 (proj2 (momentum_prim_3d_integral sa sb ca cb al be (Pa _ Ha) (Pb _ Hb)))).
+Qed.
+
+(* angular momentum about the origin: the three components of the real matrix R (value -i R) *)
+Lemma angop_linear (w1 w2 : R -> R -> R -> R) (o1 o2 : Shell.comp) (x y z : R) :
+  w1 x y z * pd3 (cx o1) (cy o1) (cz o1) (cfun sb mb cb) x y z
+  - w2 x y z * pd3 (cx o2) (cy o2) (cz o2) (cfun sb mb cb) x y z
+  = fsumR (Tables.mk (length (s_exps sb)) (fun kb => cw sb mb cb kb *
+      (w1 x y z * pd3 (cx o1) (cy o1) (cz o1) (gprim sb (nth kb (s_exps sb) 0) cb) x y z
+       - w2 x y z * pd3 (cx o2) (cy o2) (cz o2) (gprim sb (nth kb (s_exps sb) 0) cb) x y z))).
+Proof.
+  rewrite !pd3_cfun.
+  transitivity (fadd RK (fmul RK (w1 x y z) (fsumR (Tables.mk (length (s_exps sb)) (fun k =>
+                   cw sb mb cb k * pd3 (cx o1) (cy o1) (cz o1) (gprim sb (nth k (s_exps sb) 0) cb) x y z))))
+                        (fmul RK (- w2 x y z) (fsumR (Tables.mk (length (s_exps sb)) (fun k =>
+                   cw sb mb cb k * pd3 (cx o2) (cy o2) (cz o2) (gprim sb (nth k (s_exps sb) 0) cb) x y z))))).
+  { change (fmul RK) with Rmult. change (fadd RK) with Rplus. ring. }
+  rewrite !(fsum_mk_scale_l RK RK_field), (fsum_mk_add RK RK_field).
+  apply fsumR_ext. intro k. change (fmul RK) with Rmult. change (fadd RK) with Rplus. ring.
+Qed.
+
+Theorem angmom_block_is_integral :
+  let e := get4 [] ma ia mb ib (angmom_block_re RK sa sb) in
+  gint3 (fun x y z => cfun sa ma ca x y z
+           * (y * pd3 0 0 1 (cfun sb mb cb) x y z - z * pd3 0 1 0 (cfun sb mb cb) x y z)) (nth 0 e 0) /\
+  gint3 (fun x y z => cfun sa ma ca x y z
+           * (z * pd3 1 0 0 (cfun sb mb cb) x y z - x * pd3 0 0 1 (cfun sb mb cb) x y z)) (nth 1 e 0) /\
+  gint3 (fun x y z => cfun sa ma ca x y z
+           * (x * pd3 0 1 0 (cfun sb mb cb) x y z - y * pd3 1 0 0 (cfun sb mb cb) x y z)) (nth 2 e 0).
+Proof.
+  cbv zeta.
+  rewrite (angmom_block_correct RK RK_field fapx_id_R two_neq_0_R sa sb ma ia mb ib Wa Wb
+             (exps_ok_pos_R sa sb Pa Pb) Hma Hia Hmb Hib).
+  cbv zeta. fold ca cb. cbn [nth].
+  repeat split.
+  - apply (contracted_op_integral sa sb ca cb ma mb
+             (fun G x y z => y * pd3 0 0 1 G x y z - z * pd3 0 1 0 G x y z)).
+    + intros x y z. exact (angop_linear (fun _ y _ => y) (fun _ _ z => z) (0, 0, 1)%nat (0, 1, 0)%nat x y z).
+    + intros al be Ha Hb. exact (proj1 (angmom_prim_3d_integral sa sb ca cb al be (Pa _ Ha) (Pb _ Hb))).
+  - apply (contracted_op_integral sa sb ca cb ma mb
+             (fun G x y z => z * pd3 1 0 0 G x y z - x * pd3 0 0 1 G x y z)).
+    + intros x y z. exact (angop_linear (fun _ _ z => z) (fun x _ _ => x) (1, 0, 0)%nat (0, 0, 1)%nat x y z).
+    + intros al be Ha Hb. exact (proj1 (proj2 (angmom_prim_3d_integral sa sb ca cb al be (Pa _ Ha) (Pb _ Hb)))).
+  - apply (contracted_op_integral sa sb ca cb ma mb
+             (fun G x y z => x * pd3 0 1 0 G x y z - y * pd3 1 0 0 G x y z)).
+    + intros x y z. exact (angop_linear (fun x _ _ => x) (fun _ y _ => y) (0, 1, 0)%nat (1, 0, 0)%nat x y z).
+    + intros al be Ha Hb. exact (proj2 (proj2 (angmom_prim_3d_integral sa sb ca cb al be (Pa _ Ha) (Pb _ Hb)))).
+Qed.
 End DiffBlocks.
+
+(* ------------------------------------------------------------------ *)
+(* 8. the hypotheses are satisfiable; concrete instances               *)
+(* ------------------------------------------------------------------ *)
+Definition ex_shell_d : shell R := mkShell R 2 0 0 0 [3 / 2; 1 / 4] [[1; 2]; [3; 4]] false [] [].
+Definition ex_shell_p : shell R := mkShell R 1 1 (-1) (1 / 2) [2] [[1]] false [] [].
+
+Example block_hypotheses_satisfiable :
+  wf_shell ex_shell_d /\ wf_shell ex_shell_p /\ pos_exps3 ex_shell_d /\ pos_exps3 ex_shell_p /\
+  (1 < nseg ex_shell_d)%nat /\ (4 < length (comps_of ex_shell_d))%nat /\
+  (0 < nseg ex_shell_p)%nat /\ (2 < length (comps_of ex_shell_p))%nat.
+Proof.
+  split; [apply wf_shell_default; reflexivity|].
+  split; [apply wf_shell_default; reflexivity|].
+  split; [intros a [<-|[<-|[]]]; lra|].
+  split; [intros a [<-|[]]; lra|].
+  cbn. lia.
+Qed.
+
+(* ... so e.g. this entry of the kinetic block of a (d, p) pair of shells is the iterated integral *)
+Example kinetic_block_instance :
+  gint3 (fun x y z => cfun ex_shell_d 1 (0, 1, 1)%nat x y z
+                      * (- (1 / 2) * lap3 (cfun ex_shell_p 0 (0, 0, 1)%nat) x y z))
+        (Overlap.nth4 RK 1 4 0 2 (kinetic_block RK ex_shell_d ex_shell_p)).
+Proof.
+  destruct block_hypotheses_satisfiable as [W1 [W2 [P1 [P2 [H1 [H2 [H3 H4]]]]]]].
+  exact (kinetic_block_is_integral ex_shell_d ex_shell_p 1 4 0 2 W1 W2 P1 P2 H1 H2 H3 H4).
+Qed.
+
+(* the iterated integral of a normalised primitive squared is 1 (with Proofs/CoreNormP.v) *)
+Example normalised_primitive (s : shell R) (c : Shell.comp) (al : R) :
+  0 < al -> (cx c + cy c + cz c)%nat = s_l s ->
+  gint3 (fun x y z => (norm_prim RK (s_l s) c al * gprim s al c x y z)
+                      * (norm_prim RK (s_l s) c al * gprim s al c x y z)) 1.
+Proof.
+  intros Ha Hl.
+  refine (gint3_ext _ _ _ _ _ (norm_prim_self_overlap s c al Ha Hl)
+            (gint3_scal (norm_prim RK (s_l s) c al * norm_prim RK (s_l s) c al) _ _
+               (overlap_prim_3d_integral s s c c al al Ha Ha))).
+  intros x y z. ring.
+Qed.
